@@ -82,7 +82,7 @@ StringForm(name) == [form |-> "string", entries |-> <<E("rule", S(name))>>]
 ObjectForm(name, p, f) == [form |-> "object", entries |-> <<E("rule", S(name))>> \o p \o f]
 RuleTexts(name) ==
   (IF <<>> \in PropVariants(name) THEN {StringForm(name)} ELSE {})
-  \cup {ObjectForm(name, p, f) : p \in PropVariants(name), f \in (IF Thorough THEN FilterCombos ELSE FewFilters)}
+  \cup {ObjectForm(name, p, f) : p \in PropVariants(name), f \in FilterCombos}
   \cup {ObjectForm(name, RichVariant(name), f) : f \in FilterCombos}
   \cup (IF <<>> \in PropVariants(name) THEN {ObjectForm(name, <<>>, f) : f \in FilterCombos} ELSE {})
 
